@@ -219,7 +219,72 @@ def r11_4(ctx: Ctx) -> None:
     ctx.check(ok, "R11.4", hr, hr.node, "encoded header folder gets the password", "Header._read does not hand the password to the header folder", construct="header reader password")
 
 
+MUTATORS = {"pop", "append", "remove", "insert", "clear", "extend", "sort", "reverse", "update", "setdefault", "popitem", "__setitem__", "__delitem__"}
+
+
+def r11_6(ctx: Ctx) -> None:
+    """the filter specification handed in by the caller (possibly the module constant DEFAULT_FILTERS.ENCRYPTED_ARCHIVE_FILTER, shared by
+    every archive written in the process) is read-only: nothing in the package mutates a `filters` parameter, `self.filters` that aliases
+    one, or an element taken from them.  Popping the 7zAES entry off the shared list makes every LATER password archive plain."""
+    n_fn = 0
+    for mod in ("compressor", "py7zr", "archiveinfo"):
+        for f in ctx.prog.funcs_in(mod):
+            names = set()
+            if "filters" in f.params:
+                names.add("filters")
+            attrs = set()
+            if f.cls is not None:
+                cls = ctx.prog.module(mod).classes.get(f.cls)
+                if cls is not None:
+                    for m in cls.methods.values():
+                        for n in walk(m.node):
+                            if isinstance(n, (ast.Assign, ast.AnnAssign)) and n.value is not None and isinstance(n.value, ast.Name) and n.value.id == "filters" and "filters" in m.params:
+                                for t in (n.targets if isinstance(n, ast.Assign) else [n.target]):
+                                    if isinstance(t, ast.Attribute) and isinstance(t.value, ast.Name) and t.value.id == "self":
+                                        attrs.add(t.attr)
+            if not names and not attrs:
+                continue
+            n_fn += 1
+
+            def aliased(e: ast.AST, depth: int = 3) -> bool:
+                if isinstance(e, ast.Name):
+                    if e.id in names:
+                        # a parameter that is re-bound to a fresh copy first is no alias any more: only the plain parameter counts
+                        return not any(isinstance(v, ast.Call) or isinstance(v, (ast.List, ast.ListComp)) for v in q.assigned_values(f, e.id))
+                    if depth > 0:
+                        vals = q.assigned_values(f, e.id)
+                        return any(aliased(v, depth - 1) for v in vals if not isinstance(v, ast.Call))
+                    return False
+                if isinstance(e, ast.Attribute) and isinstance(e.value, ast.Name) and e.value.id == "self":
+                    return e.attr in attrs
+                if isinstance(e, ast.Subscript) and not isinstance(e.slice, ast.Slice):
+                    return aliased(e.value, depth)  # an element (a filter dict) of the shared list
+                return False
+
+            # loop variables over an aliased list are elements of it
+            elems = {lp.target.id for lp in walk(f.node) if isinstance(lp, ast.For) and isinstance(lp.target, ast.Name) and aliased(lp.iter)}
+            for n in walk(f.node):
+                tgt = None
+                if isinstance(n, ast.Call) and isinstance(n.func, ast.Attribute) and n.func.attr in MUTATORS:
+                    tgt = n.func.value
+                elif isinstance(n, (ast.Assign, ast.AugAssign, ast.Delete)):
+                    ts = n.targets if isinstance(n, (ast.Assign, ast.Delete)) else [n.target]
+                    for t in ts:
+                        if isinstance(t, ast.Subscript):
+                            tgt = t.value
+                if tgt is None:
+                    continue
+                if aliased(tgt) or (isinstance(tgt, ast.Name) and tgt.id in elems):
+                    ctx.fail("R11.6", f, n, f"`{norm(n)[:70]}` mutates the caller's filter specification (`{norm(tgt)}` aliases the `filters` argument, which may be the "
+                             "shared DEFAULT_FILTERS constant): the change persists into every archive written later in the process (e.g. the 7zAES entry is popped once "
+                             "and later password archives are written unencrypted)", construct=f"mutation of {norm(tgt)}")
+    ctx.floor("R11.6", n_fn, 3, "functions handling a caller-supplied filter list")
+    ctx.ok("R11.6", f"{n_fn} functions that hold a caller-supplied `filters` list: none mutates it or its elements")
+
+
 def run(ctx: Ctx) -> None:
+    r11_6(ctx)
+    shared.exits_do_not_swallow(ctx, "R11.5")
     r11_1(ctx)
     r11_2(ctx)
     r11_3(ctx)
